@@ -1,4 +1,5 @@
 import Cascette.Props.C16
+import Cascette.Proofs.ZbsdiffTie
 open Cascette.Props.C16
 #print axioms patchers_eq_spec
 #print axioms patchers_agree
@@ -21,3 +22,42 @@ open Cascette.Props.C16
 #print axioms chunked_total
 #print axioms stream_caller_size_witness
 #print axioms stream_length_is_callers_partial
+-- whole patch bytes: header + zlib framing (zlib a parameter)
+#print axioms storeZ_lawful
+#print axioms header_roundtrip
+#print axioms container_roundtrip
+#print axioms container_parse_build
+#print axioms patch_bytes_blocks
+#print axioms simple_patch_bytes_roundtrip
+#print axioms chunked_patch_bytes_roundtrip
+#print axioms suffix_patch_bytes_roundtrip
+#print axioms suffix_real_patch_bytes_roundtrip
+#print axioms apply_patch_bytes_length_or_error
+#print axioms patch_bytes_patchers_agree
+#print axioms apply_patch_bytes_eq_applyBytes
+-- control-entry codec at the i64 limits
+#print axioms offtout_i64_roundtrip
+#print axioms offtout_i64_min_witness
+#print axioms offtin_negative_zero
+#print axioms offtin_never_min
+#print axioms codec_canonical
+-- streaming patcher over a short-reading Read + Seek source
+#print axioms read_exact_short_reads
+#print axioms stream_short_reads_agree
+#print axioms short_reads_bytes_agree
+#print axioms stream_unseekable_fails
+-- Rust -> Lean tie (lib/rs2lean_zbsdiff.py, Generated/ZbsdiffSrc)
+#print axioms Cascette.Proofs.ZbsdiffTie.signature_tie
+#print axioms Cascette.Proofs.ZbsdiffTie.endianness_tie
+#print axioms Cascette.Proofs.ZbsdiffTie.layout_tie
+#print axioms Cascette.Proofs.ZbsdiffTie.limits_tie
+#print axioms Cascette.Proofs.ZbsdiffTie.header_valid_tie
+#print axioms Cascette.Proofs.ZbsdiffTie.entry_guard_tie
+#print axioms Cascette.Proofs.ZbsdiffTie.record_loop_tie
+#print axioms Cascette.Proofs.ZbsdiffTie.record_tie
+#print axioms Cascette.Proofs.ZbsdiffTie.sign_mask_tie
+#print axioms Cascette.Proofs.ZbsdiffTie.chunked_params_tie
+#print axioms Cascette.Proofs.ZbsdiffTie.chunked_step_tie
+#print axioms Cascette.Proofs.ZbsdiffTie.default_block_tie
+#print axioms Cascette.Proofs.ZbsdiffTie.buffer_tie
+#print axioms Cascette.Proofs.ZbsdiffTie.block_order_tie
